@@ -727,6 +727,104 @@ Fixpoint run (st : srv) (ops : list op) : option (srv * list (Z * list bytes)) :
 
 Definition init (db : list attr) (b : bearer) (max_mtu : Z) : srv := mkSrv db b max_mtu [] false [].
 
+(* ------------------------------------------------------------------ bursts
+   Several PDUs delivered on the bearer before the event loop runs again (they arrived in one
+   transport read).  Server.on_gatt_pdu is called for each in turn: the plain handlers (Exchange
+   MTU, Find Information), the malformed-PDU branch and the handler-less branch act -- and
+   send -- at once; a confirmation resolves the pending future at once (a second one finds
+   it done: ignored, D10d) but the indicating task only resumes later; every task-wrapped
+   handler is merely scheduled and runs afterwards, in arrival order, on the state the plain
+   handlers left (e.g. a new ATT_MTU); the indication released by the confirmation goes last
+   (the waiter is woken when the indicating task finishes, behind the scheduled handlers).
+   Attribute value functions are assumed not to suspend (else handler tasks interleave). *)
+Definition deferred (opc : Z) (ps : bytes) : bool :=
+  match parse_pdu opc ps with
+  | PBad => false
+  | POk _ => match assoc opc m_handlers with Some true => true | _ => false end
+  end.
+
+(* first pass: what happens at once; returns state, "a confirmation arrived for a pending
+   indication", PDUs sent at once (with the ATT_MTU in force), PDUs whose handler is scheduled *)
+Fixpoint burst_now (st : srv) (conf : bool) (l : list (Z * bytes))
+  : option (srv * bool * list (Z * bytes) * list (Z * bytes)) :=
+  match l with
+  | [] => Some (st, conf, [], [])
+  | (opc, ps) :: l' =>
+      if deferred opc ps then
+        match burst_now st conf l' with
+        | None => None
+        | Some (st', c, out, d) => Some (st', c, out, (opc, ps) :: d)
+        end
+      else if opc =? OP_CONFIRM then burst_now st (conf || s_pending st) l'
+      else
+        match rx st opc ps with
+        | None => None
+        | Some (st1, out1) =>
+            match burst_now st1 conf l' with
+            | None => None
+            | Some (st', c, out, d) => Some (st', c, map (fun p => (mtu_of st, p)) out1 ++ out, d)
+            end
+        end
+  end.
+
+(* second pass: the scheduled handlers, in order *)
+Fixpoint burst_later (st : srv) (d : list (Z * bytes)) : option (srv * list (Z * bytes)) :=
+  match d with
+  | [] => Some (st, [])
+  | (opc, ps) :: d' =>
+      match rx st opc ps with
+      | None => None
+      | Some (st1, out1) =>
+          match burst_later st1 d' with
+          | None => None
+          | Some (st', out) => Some (st', map (fun p => (mtu_of st, p)) out1 ++ out)
+          end
+      end
+  end.
+
+(* replies (tagged with the ATT_MTU in force when sent), then what the confirmation released *)
+Definition burst (st : srv) (l : list (Z * bytes)) : option (srv * list (Z * bytes) * list bytes) :=
+  match burst_now st false l with
+  | None => None
+  | Some (st1, conf, out1, d) =>
+      match burst_later st1 d with
+      | None => None
+      | Some (st2, out2) =>
+          let '(st3, rel) := if conf then h_confirm st2 else (st2, []) in
+          Some (st3, out1 ++ out2, rel)
+      end
+  end.
+
+Definition count_requests (l : list (Z * bytes)) : Z :=
+  len (filter (fun x => memz (fst x) spec_requests) l).
+
+(* histories mixing single stimuli and bursts (used by the correspondence) *)
+Inductive bop := Single (o : op) | Burst (l : list (Z * bytes)).
+
+Definition bstep (st : srv) (o : bop) : option (srv * list bytes) :=
+  match o with
+  | Single o' => step st o'
+  | Burst l =>
+      match burst st l with
+      | None => None
+      | Some (st', out, rel) => Some (st', map snd out ++ rel)
+      end
+  end.
+
+Fixpoint brun (st : srv) (ops : list bop) : option (srv * list (Z * list bytes)) :=
+  match ops with
+  | [] => Some (st, [])
+  | o :: ops' =>
+      match bstep st o with
+      | None => None
+      | Some (st1, out) =>
+          match brun st1 ops' with
+          | None => None
+          | Some (st2, outs) => Some (st2, (mtu_of st, out) :: outs)
+          end
+      end
+  end.
+
 (* ------------------------------------------------------------------ several bearers on one server
    Server keeps `subscribers`, `indication_semaphores` and `pending_confirmations` keyed by
    bearer; the ATT_MTU and the security state live on the bearer / its connection.  So the
@@ -811,6 +909,18 @@ Fixpoint ind_ok (outstanding : bool) (ops : list op) (outs : list (Z * list byte
       match sent_ok (if is_confirm o then false else outstanding) out with
       | None => false
       | Some o' => ind_ok o' ops' outs'
+      end
+  | _, _ => true
+  end.
+
+(* one indication outstanding PER BEARER: [pend] holds, per bearer, whether an indication
+   awaits its confirmation; a confirmation received on bearer i clears bearer i's flag only *)
+Fixpoint mind_ok (pend : list bool) (ops : list (nat * op)) (outs : list (nat * list bytes)) : bool :=
+  match ops, outs with
+  | (i, o) :: ops', (_, out) :: outs' =>
+      match sent_ok (if is_confirm o then false else nth i pend false) out with
+      | None => false
+      | Some p' => mind_ok (set_nth i p' pend) ops' outs'
       end
   | _, _ => true
   end.
